@@ -14,6 +14,7 @@ import (
 	configapi "github.com/onosproject/onos-api/go/onos/config/v2"
 
 	"github.com/onosproject/onos-config/pkg/utils"
+	pathutils "github.com/onosproject/onos-config/pkg/utils/path"
 )
 
 const (
@@ -266,27 +267,38 @@ func PrunePathValues(paths []*configapi.PathValue, leaveTopDeletedPaths bool) []
 	})
 
 	prunedPaths := make([]*configapi.PathValue, 0, len(sortedPaths))
-	deletingPrefix := ""
+	deletedRoots := make([]string, 0)
 	for _, pv := range sortedPaths {
-		// If this path is marked as deleted and we're already not deleting this subtree, start deleting
-		if pv.Deleted && (len(deletingPrefix) == 0 || !strings.HasPrefix(pv.Path, deletingPrefix)) {
-			deletingPrefix = pv.Path
+		// If this path is part of an already deleted sub-tree (at a path element boundary), prune it
+		if isUnderAny(pv.Path, deletedRoots) {
+			continue
+		}
+
+		// If this path is marked as deleted, it is the top of a deleted sub-tree
+		if pv.Deleted {
+			deletedRoots = append(deletedRoots, pv.Path)
 
 			// If we're asked to leave behind the top deleted node of a sub-tree, add it here
 			if leaveTopDeletedPaths {
 				prunedPaths = append(prunedPaths, pv)
 			}
+			continue
 		}
 
-		// If we're not currently deleting or if the node is not part of the sub-tree, add it and cancel deletion
-		// since we have left the sub-tree.
-		if len(deletingPrefix) == 0 || !strings.HasPrefix(pv.Path, deletingPrefix) {
-			prunedPaths = append(prunedPaths, pv)
-			deletingPrefix = ""
-		}
+		prunedPaths = append(prunedPaths, pv)
 	}
 
 	return prunedPaths
+}
+
+// isUnderAny returns true if the path is one of the given roots or lies beneath one of them
+func isUnderAny(path string, roots []string) bool {
+	for _, root := range roots {
+		if pathutils.IsSubPath(path, root) {
+			return true
+		}
+	}
+	return false
 }
 
 // PrunePathMap produces a copy of the given path values map, with paths marked as deleted and their sub-paths removed.
